@@ -85,7 +85,8 @@ def execute(scn, policy=None, seed=0, labels=None, monitors=("notes", "records",
         collect(run)
     except Exception as e:       # harness or engine blew up outside the world's own handling
         import traceback
-        run.error = "%s: %s\n%s" % (type(e).__name__, e, traceback.format_exc()[-2500:])
+        tb = traceback.format_exc()
+        run.error = "%s: %s\n%s" % (type(e).__name__, e, tb if len(tb) <= 5000 else tb[:2500] + "\n  [...]\n" + tb[-2500:])
         run.trace = list(w.trace)
         collect(run)
     return run
